@@ -131,6 +131,13 @@ def _names_scenarios(quick, seed):
         threads = [{"mode": "pause", "stack_pages": 1, "sp_off": 256, "name_hex": rnd.choice(_NAMES[:11]).hex()} for _ in range(n)]
         fail = [{"slot": i} for i in range(n) if rnd.random() < 0.4]
         scns.append({"id": f"names/rand{k}", "target": {"threads": threads}, "writer": {"blamed": "main"}, "faults": {"name_fail": fail}})
+    # the enumeration is not the list: threads dropped when the process is suspended (they run without a stack pointer) x names that
+    # cannot be read, among threads that are listed with their names
+    combos = [(dm, fm) for dm in range(1, 8) for fm in range(8)]
+    for (dm, fm) in (rnd.sample(combos, 10) if quick else combos):
+        threads = [{"mode": "rsp0" if dm >> i & 1 else "pause", "stack_pages": 1, "sp_off": 512, "name_hex": _NAMES[(i + dm + fm) % 11].hex()} for i in range(3)]
+        threads.append({"mode": "pause", "stack_pages": 1, "sp_off": 512, "name_hex": _NAMES[(dm * 8 + fm) % 11].hex()})
+        scns.append({"id": f"names/dropped/d{dm}/f{fm}", "target": {"threads": threads}, "writer": {"blamed": "main"}, "faults": {"name_fail": [{"slot": i} for i in range(3) if fm >> i & 1]}})
     ctl = _NAMES[14:]
     scns.append({"id": "names/control", "target": {"threads": [{"mode": "pause", "stack_pages": 1, "sp_off": 256, "name_hex": c.hex()} for c in ctl], "main_name_hex": ctl[0].hex()},
                  "writer": {"blamed": "main"}})
@@ -143,7 +150,7 @@ def _names_scenarios(quick, seed):
 
 def c15(ck):
     quick = ck.tier == "quick"
-    util.mc_design(ck, "ThreadNames", "MC_ThreadNames", "thread-name stream placement for every list of <= MaxThreads threads, every named/unnamed subset, name lengths {0,2}; invariant C15", coverage=True)
+    util.mc_design(ck, "ThreadNames", "MC_ThreadNames", "thread-name stream placement for every enumeration of <= MaxThreads threads, every named/unnamed subset, every subset dropped at suspend, name lengths {0,2}; invariant C15", coverage=True)
     scns = _names_scenarios(quick, ck.seed)
     scns += dumps.cross_scenarios(quick, ck.seed)          # every knob drawn independently (see dumps.cross_scenarios)
     runs = dumps.run_scenarios(ck, scns, "c15")
